@@ -1,7 +1,6 @@
 package props
 
 import (
-	"bytes"
 	"context"
 	"fmt"
 	"os"
@@ -67,6 +66,11 @@ func queriesFor(r *core.Rng, es []pmtiles.EntryV3, maxQ int) []uint64 {
 }
 
 func (C04) Gen(r *core.Rng, tier string, emit func(string)) {
+	if tier == "thorough" {
+		emit = cliDup(emit, []string{"arch"}, 9, 200)
+	} else {
+		emit = cliDup(emit, []string{"arch"}, 9, 20)
+	}
 	nFind, nArch := 20000, 1200
 	if tier == "thorough" {
 		nFind, nArch = 600000, 25000
@@ -131,7 +135,8 @@ func baseHeader() pmtiles.HeaderV3 {
 }
 
 func (C04) RunGo(line string) string {
-	t := strings.Fields(line)
+	cliMode, t := splitCLI(strings.Fields(line))
+	_ = cliMode
 	switch t[0] {
 	case "find":
 		q, _ := strconv.ParseUint(t[1], 10, 64)
@@ -178,12 +183,14 @@ func (C04) RunGo(line string) string {
 				return ""
 			})
 			a.to = res
-			var buf bytes.Buffer
-			err := pmtiles.Show(discardLogger, &buf, "", path, false, false, false, "", true, int(z), int(x), int(y))
+			tb, err := opTile(cliMode, path, int(z), int(x), int(y))
+			if cliMode && string(tb) == "Tile not found in archive.\n" {
+				tb = nil // the message the command prints on stdout for an absent tile
+			}
 			if err != nil {
 				a.cli = " cli=err"
 			} else {
-				a.cli = " cli=" + hexs(buf.Bytes())
+				a.cli = " cli=" + hexs(tb)
 			}
 			answers = append(answers, a)
 		}
@@ -205,7 +212,8 @@ func (C04) RunGo(line string) string {
 }
 
 func (C04) NonTrivial(line string) bool {
-	t := strings.Fields(line)
+	cliMode, t := splitCLI(strings.Fields(line))
+	_ = cliMode
 	if t[0] == "find" {
 		n, _ := strconv.Atoi(t[2])
 		return n >= 2
@@ -215,7 +223,8 @@ func (C04) NonTrivial(line string) bool {
 }
 
 func (C04) Branch(line, goOut string) string {
-	t := strings.Fields(line)
+	cliMode, t := splitCLI(strings.Fields(line))
+	_ = cliMode
 	if t[0] == "find" {
 		return "find " + strings.SplitN(goOut, " ", 2)[0]
 	}
@@ -234,7 +243,8 @@ func (C04) Branch(line, goOut string) string {
 
 // Oracle: linear scan of the independently flattened directory.
 func (C04) Oracle(line, goOut string) string {
-	t := strings.Fields(line)
+	cliMode, t := splitCLI(strings.Fields(line))
+	_ = cliMode
 	switch t[0] {
 	case "find":
 		q, _ := strconv.ParseUint(t[1], 10, 64)
